@@ -314,6 +314,16 @@ impl Real<'_> {
     }
 }
 
+/// number of input modifiers of the active override(s) given the removed keys: "0", "1", "2", "3_or_more"
+fn in_mods_bucket(removed: Mask) -> &'static str {
+    match (removed >> 5).count_ones() {
+        0 => "0",
+        1 => "1",
+        2 => "2",
+        _ => "3_or_more",
+    }
+}
+
 fn list_mask(l: &[usize]) -> Mask {
     l.iter().fold(0, |m, i| m | (1 << i))
 }
@@ -681,7 +691,7 @@ fn run_pipeline(out: &mut CaseOut, ctx: &Ctx, r: u64) {
     let PipeCase { table, map, roa, text, h, family, map_kind, pool_len } = pipe_case(ctx, r);
     out.tag(format!("pipe:{family}:roa={roa}:map={map_kind}:entries={}:pool={pool_len}", table.len()));
     out.inc(&format!("pipeline_histories_{}", family.replace('+', "_")));
-    let Some(obs) = judge_history(out, &table, &map, roa, &text, &h, r % 400 == 1) else { return };
+    let Some(obs) = judge_history(out, &table, &map, roa, &text, &h, r % 400 == 1, false) else { return };
     // the same press/release events, widely spaced: what the OS ends up holding must not depend on
     // how close together the events arrived
     if let Some(reference) = reference_run(&text, &h) {
@@ -760,7 +770,14 @@ fn compare_spacing(out: &mut CaseOut, text: &str, h: &[Ev], roa: bool, var: &Run
 }
 
 /// Runs one history through a fresh real `Kanata` and judges every tick and every repeat.
-fn judge_history(out: &mut CaseOut, table: &[Ovr], map: &Map, roa: bool, text: &str, h: &[Ev], want_sample: bool) -> Option<RunObs> {
+///
+/// `loop_mode`: the history is driven the way `Kanata::start_processing_loop` drives kanata instead of
+/// ticking through every `t:N`. An input event wakes the loop, which handles it and runs one tick; after
+/// that a tick runs only while `Kanata::can_block_update_idle_waiting` (the predicate the real loop
+/// consults) says kanata may NOT block. As soon as it may block, the rest of the pause passes without
+/// any tick - whatever the OS holds at that moment stays held (and auto-repeats) until the user's next
+/// key event - and that moment is judged by the block clauses.
+fn judge_history(out: &mut CaseOut, table: &[Ovr], map: &Map, roa: bool, text: &str, h: &[Ev], want_sample: bool, loop_mode: bool) -> Option<RunObs> {
     let table = table.to_vec();
     let map = *map;
     let text = text.to_string();
@@ -809,8 +826,22 @@ fn judge_history(out: &mut CaseOut, table: &[Ovr], map: &Map, roa: bool, text: &
     let mut prev_ok = false;
     let mut prev_stable = false; // no key was removed by release-on-activation in the last tick
     let mut judged_ok = true;
+    // loop mode: an input event was handled and the tick the loop runs right after it is still to come
+    let mut woke = false;
+    // loop mode: release-on-activation removed a key since kanata last blocked
+    let mut roa_removal_since_block = false;
+    // every key that is an output of some entry of the table
+    let table_outputs: Mask = table.iter().fold(0, |m, o| m | mods_to_mask(o.out_mods) | (1 << o.out_key));
+    if loop_mode {
+        out.inc(if roa { "loop_histories_release_on_activation_yes" } else { "loop_histories_release_on_activation_no" });
+    }
     let witness = |sim: &Sim, what: Value, h: &[Ev], text: &str| -> Value {
         let mut w = json!({"config": text, "history": render_hist(h), "trace": sim.trace_json()});
+        if loop_mode {
+            if let Some(o) = w.as_object_mut() {
+                o.insert("driver".into(), json!("processing-loop emulation: t:N is a pause of N ms; after an input event one tick runs, further ticks run only while Kanata::can_block_update_idle_waiting(1) is false, the rest of the pause passes without a tick"));
+            }
+        }
         if let (Some(o), Some(x)) = (w.as_object_mut(), what.as_object()) {
             for (k, v) in x {
                 o.insert(k.clone(), v.clone());
@@ -824,7 +855,11 @@ fn judge_history(out: &mut CaseOut, table: &[Ovr], map: &Map, roa: bool, text: &
             Ev::Rep(c) => {
                 // OS auto-repeat of a physically held key: answered at once, never queued
                 sim.apply(e);
+                woke = loop_mode;
                 out.inc("pipeline_repeat_inputs");
+                if loop_mode {
+                    out.inc("loop_repeat_inputs");
+                }
                 let outs: Vec<crate::core::sim::Out> = sim.last().to_vec();
                 let settled = pending.is_empty() && judged_ok && prev_ok && prev_stable;
                 let pk = idx_of_code(*c); // physical key
@@ -918,10 +953,102 @@ fn judge_history(out: &mut CaseOut, table: &[Ovr], map: &Map, roa: bool, text: &
             other => {
                 sim.apply(other);
                 pending.push_back(other.clone());
+                woke = loop_mode;
                 0
             }
         };
-        for _ in 0..nticks {
+        let mut left = nticks;
+        while left > 0 {
+            if loop_mode && !woke {
+                if sim.k.can_block_update_idle_waiting(1) {
+                    // kanata blocks until the next input event: the rest of the pause passes without a tick
+                    out.inc("loop_blocks");
+                    if left >= 50 {
+                        out.inc("loop_blocks_followed_by_a_pause_of_50ms_or_more");
+                    }
+                    if obs.settle.last().map(|(n, _)| *n) != Some(n_consumed) {
+                        obs.settle.push((n_consumed, sim.os.keys_down.clone()));
+                    }
+                    if judged_ok {
+                        let mut k_list: Vec<usize> = vec![];
+                        let mut foreign = false;
+                        for kc in sim.k.layout.b().keycodes() {
+                            match idx_of_code(u16::from(OsCode::from(kc))) {
+                                Some(i) => {
+                                    if !k_list.contains(&i) {
+                                        k_list.push(i)
+                                    }
+                                }
+                                None => foreign = true,
+                            }
+                        }
+                        let km = list_mask(&k_list);
+                        let (acc, removed, _added) = spec(&table, km);
+                        let mut os: Mask = 0;
+                        for n in &sim.os.keys_down {
+                            match names.iter().position(|x| x == n) {
+                                Some(i) => os |= 1 << i,
+                                None => foreign = true,
+                            }
+                        }
+                        out.inc("loop_blocks_judged");
+                        let mut bdev: Option<(String, String, Value)> = None;
+                        let roa_sfx = if roa { "release-on-activation-yes" } else { "release-on-activation-no" };
+                        if !pending.is_empty() || !sim.k.layout.b().queue.is_empty() {
+                            bdev = Some(("C13:loop:blocked-with-key-event-unprocessed".into(), "kanata may block although a key event it accepted has not been processed yet".into(), json!({"observed": format!("{} event(s) queued", sim.k.layout.b().queue.len()), "expected": "nothing queued"})));
+                        } else if foreign {
+                            bdev = Some(("C13:loop:blocked-with-foreign-key".into(), "kanata blocks while a key outside the configured universe is held".into(), json!({"observed": format!("{:?}", sim.os.keys_down), "expected": mask_names(acc[0])})));
+                        } else if !acc.contains(&os) {
+                            let pure = real.run(&k_list);
+                            let pure_mf = real.run(&mods_first(&k_list));
+                            if pure == os && nonmod_precedes_mod(&k_list) && acc.contains(&pure_mf) {
+                                // the known order deviation, reported by the tick that led here
+                                out.inc("loop_blocks_showing_the_known_order_deviation");
+                            } else {
+                                let extra = os & !acc[0];
+                                let missing = acc[0] & !os;
+                                let sig = if extra & table_outputs & !km != 0 {
+                                    format!("C13:loop:blocked-with-override-output-down:{roa_sfx}")
+                                } else if missing & 0x1fe0 & phys != 0 {
+                                    "C13:loop:blocked-with-held-modifier-missing".to_string()
+                                } else {
+                                    "C13:loop:blocked-with-os-set-mismatch".to_string()
+                                };
+                                bdev = Some((sig, format!("kanata may block (no tick until the next key event, here {left} ms away) while the OS holds {:?}; specified for the keys kanata holds {:?}: {:?}{}", mask_names(os), list_names(&k_list), mask_names(acc[0]), if extra & table_outputs & !km != 0 { format!(" - override output {:?} stays down and auto-repeats although its combination is not held", mask_names(extra & table_outputs & !km)) } else { String::new() }), json!({"observed": mask_names(os), "expected": acc.iter().map(|m| mask_names(*m)).collect::<Vec<_>>(), "held_by_kanata_in_order": list_names(&k_list), "pause_before_next_event_ms": left, "override_keys_result": mask_names(pure)})));
+                            }
+                        } else if removed & 0x1f != 0 {
+                            // an override is active while kanata sleeps: fine when the combination is still
+                            // held (release-on-activation off); with release-on-activation the output
+                            // "cannot remain held" (configuration guide)
+                            let really = real.replaced_nonmods(&k_list) & removed;
+                            if roa && really != 0 {
+                                bdev = Some(("C13:loop:blocked-with-override-active:release-on-activation-yes".into(), format!("override-release-on-activation is on, yet kanata blocks with the override of {:?} active (OS holds {:?})", mask_names(really), mask_names(os)), json!({"observed": mask_names(os), "expected": "the override output released and the overridden key no longer held by kanata", "held_by_kanata_in_order": list_names(&k_list)})));
+                            } else {
+                                out.inc("loop_blocks_with_override_active_combination_held");
+                                out.inc(&format!("loop_blocks_with_override_active_input_mods_{}", in_mods_bucket(removed)));
+                            }
+                        } else {
+                            out.inc("loop_blocks_without_active_override");
+                            if roa_removal_since_block {
+                                out.inc("loop_blocks_after_release_on_activation_output_released");
+                            }
+                            if km == 0 && os == 0 {
+                                out.inc("loop_blocks_with_nothing_held");
+                            }
+                        }
+                        roa_removal_since_block = false;
+                        if let Some((sig, what, extra)) = bdev {
+                            let prefix: Vec<Ev> = h[..=ei].to_vec();
+                            violate_once(out, &sig, what, || witness(&sim, extra, &prefix, &text));
+                            judged_ok = false;
+                        }
+                    }
+                    break;
+                }
+                out.inc("loop_ticks_run_because_kanata_may_not_block");
+            }
+            woke = false;
+            left -= 1;
             let consumed = pending.pop_front();
             sim.tick();
             collect_os_seq(&sim, &mut obs.os_seq);
@@ -982,6 +1109,7 @@ fn judge_history(out: &mut CaseOut, table: &[Ovr], map: &Map, roa: bool, text: &
                             k_list.push(i);
                             prev_stable = false;
                             out.inc("pipeline_release_on_activation_removals");
+                            roa_removal_since_block = true;
                         }
                     }
                 }
@@ -1007,6 +1135,9 @@ fn judge_history(out: &mut CaseOut, table: &[Ovr], map: &Map, roa: bool, text: &
                         out.inc("pipeline_activations_by_remapped_key");
                     }
                     out.inc(&format!("pipeline_activation_chord_size_{}", (removed >> 5).count_ones() + 1));
+                    if loop_mode && acc.len() == 1 {
+                        out.inc(&format!("loop_activations_{}_input_mods_{}", if roa { "release_on_activation_yes" } else { "release_on_activation_no" }, in_mods_bucket(removed)));
+                    }
                 }
             }
             if prev_removed != 0 && removed != prev_removed {
@@ -1177,7 +1308,10 @@ fn fu_case(ctx: &Ctx, r: u64) -> FuCase {
 
 /// spacing of a follow-up mini-history: 0..=2 = ticks between the key that completes the combination and
 /// the follow-up event (everything before it 2 ticks apart); 3 = burst, no tick between any two events
-const FU_SPACINGS: usize = 4;
+/// 4 = loop mode (see `judge_history`): human pauses of 60..260 ms between all events, kanata ticks only
+/// while it may not block
+const FU_SPACINGS: usize = 5;
+const FU_LOOP: usize = 4;
 
 struct FuMini {
     entry: usize,
@@ -1206,18 +1340,25 @@ fn fu_minis(c: &FuCase) -> Vec<FuMini> {
             let press = combo & (1 << f) == 0;
             for spacing in 0..FU_SPACINGS {
                 let burst = spacing == 3;
+                let lp = spacing == FU_LOOP;
+                // loop mode: pauses a human produces, different at every position
+                let pause = |j: usize| -> u32 { 60 + ((f * 37 + ei * 11 + j * 53) % 201) as u32 };
                 let mut h = vec![];
                 let mut down: Vec<usize> = vec![];
-                for m in &mods {
+                for (j, m) in mods.iter().enumerate() {
                     h.push(Ev::P(cs[inv[*m]]));
                     down.push(*m);
-                    if !burst {
+                    if lp {
+                        h.push(Ev::T(pause(j)));
+                    } else if !burst {
                         h.push(Ev::T(2));
                     }
                 }
                 h.push(Ev::P(cs[inv[o.in_key]]));
                 down.push(o.in_key);
-                if !burst && spacing > 0 {
+                if lp {
+                    h.push(Ev::T(pause(8)));
+                } else if !burst && spacing > 0 {
                     h.push(Ev::T(spacing as u32));
                 }
                 if press {
@@ -1231,7 +1372,9 @@ fn fu_minis(c: &FuCase) -> Vec<FuMini> {
                     h.push(Ev::R(cs[inv[f]]));
                     down.retain(|k| *k != f);
                 }
-                if !burst {
+                if lp {
+                    h.push(Ev::T(pause(9)));
+                } else if !burst {
                     h.push(Ev::T(3));
                 }
                 if (f + ei) % 3 == 0 {
@@ -1239,7 +1382,13 @@ fn fu_minis(c: &FuCase) -> Vec<FuMini> {
                 }
                 for (j, k) in down.iter().enumerate() {
                     h.push(Ev::R(cs[inv[*k]]));
-                    let g = if burst { 0 } else { ((spacing + j) % 3) as u32 };
+                    let g = if lp {
+                        pause(10 + j)
+                    } else if burst {
+                        0
+                    } else {
+                        ((spacing + j) % 3) as u32
+                    };
                     if g > 0 {
                         h.push(Ev::T(g));
                     }
@@ -1266,7 +1415,8 @@ fn run_followup(out: &mut CaseOut, ctx: &Ctx, r: u64) {
             0 => "followup_event_0_ticks_behind_completing_key",
             1 => "followup_event_1_tick_behind_completing_key",
             2 => "followup_event_2_ticks_behind_completing_key",
-            _ => "followup_whole_history_without_ticks",
+            3 => "followup_whole_history_without_ticks",
+            _ => "followup_whole_history_in_loop_mode",
         });
         out.inc(match (m.press, is_mod(m.key)) {
             (true, false) => "followup_press_of_outside_nonmodifier",
@@ -1279,7 +1429,7 @@ fn run_followup(out: &mut CaseOut, ctx: &Ctx, r: u64) {
         }
         let before = out.violations.len();
         let want_sample = r % 100 == 3 && mi == n_minis / 2;
-        let Some(obs) = judge_history(out, &c.table, &c.map, c.roa, &c.text, &m.h, want_sample) else { return };
+        let Some(obs) = judge_history(out, &c.table, &c.map, c.roa, &c.text, &m.h, want_sample, m.spacing == FU_LOOP) else { return };
         if ref_for != (m.entry, m.key) {
             reference = reference_run(&c.text, &m.h);
             ref_for = (m.entry, m.key);
@@ -1295,12 +1445,135 @@ fn run_followup(out: &mut CaseOut, ctx: &Ctx, r: u64) {
     }
 }
 
+// ------------------------------------------------------------------ loop family
+
+/// seed-independent loop cases: (output key with an override: a b 1 9) x (physical key that outputs it) x
+/// 5 combination shapes (0, 1 and 2 input modifiers) x release-on-activation no/yes
+const N_LOOP_SYS: u64 = 4 * 5 * 5 * 2;
+
+fn n_loop(ctx: &Ctx) -> u64 {
+    N_LOOP_SYS + ctx.tier.sel(8_000, 60_000)
+}
+
+/// pause between two key events of a loop-mode history: what a human produces (50..500 ms), one in six a
+/// fast roll (1..20 ms)
+fn loop_pause(rng: &mut Rng) -> u32 {
+    if rng.chance(1, 6) {
+        *rng.pick(&[1u32, 2, 3, 8, 20])
+    } else {
+        50 + rng.usize(451) as u32
+    }
+}
+
+/// One entry's full combination typed modifiers first with human pauses, OS auto-repeats of the
+/// non-modifier's physical key while everything is held (the OS repeats a held key every ~30 ms after
+/// ~250 ms), then everything released, again with pauses.
+fn targeted_loop_history(rng: &mut Rng, o: &Ovr, inv: &Map, cs: &[u16; NK]) -> Vec<Ev> {
+    let mut h = vec![];
+    let mut mods: Vec<usize> = (0..8).filter(|i| o.in_mods & (1 << i) != 0).map(|i| i + 5).collect();
+    rng.shuffle(&mut mods);
+    let mut down: Vec<u16> = vec![];
+    for m in &mods {
+        h.push(Ev::P(cs[inv[*m]]));
+        down.push(cs[inv[*m]]);
+        h.push(Ev::T(loop_pause(rng)));
+    }
+    let k = cs[inv[o.in_key]];
+    h.push(Ev::P(k));
+    down.push(k);
+    h.push(Ev::T(50 + rng.usize(451) as u32));
+    if rng.coin() {
+        for _ in 0..1 + rng.usize(3) {
+            h.push(Ev::Rep(k));
+            h.push(Ev::T(25 + rng.usize(15) as u32));
+        }
+    }
+    rng.shuffle(&mut down);
+    for c in down {
+        h.push(Ev::R(c));
+        h.push(Ev::T(loop_pause(rng)));
+    }
+    h
+}
+
+fn loop_case(ctx: &Ctx, r: u64) -> PipeCase {
+    let cs = codes();
+    const GAPS: [u32; 14] = [1, 2, 5, 20, 50, 60, 75, 90, 120, 160, 220, 300, 400, 500];
+    if r < N_LOOP_SYS {
+        let mut rng = Rng::new(r ^ 0xc13_100b);
+        let q = (r % 4) as usize;
+        let p = ((r / 4) % 5) as usize;
+        let v = (r / 20) % 5;
+        let roa = r / 100 == 1;
+        let (in_mods, out_mods): (u8, u8) = match v {
+            0 => (0b0000_0010, 0b0000_0010), // (lsft q) -> (lsft out)
+            1 => (0, 0),                     // (q) -> (out)
+            2 => (0b0001_0010, 0b0000_0100), // (lsft rctl q) -> (lalt out)
+            3 => (0b0100_0000, 0),           // (ralt q) -> (out)
+            _ => (0b0000_0010, 0b0000_0001), // (lsft q) -> (lctl out): the output modifier is not the held one
+        };
+        let mut table = vec![Ovr { in_mods, in_key: q, out_mods, out_key: (q + 1 + v as usize) % 5 }];
+        if p != q && p < 4 {
+            table.push(Ovr { in_mods, in_key: p, out_mods: 0, out_key: (p + 2) % 5 });
+        }
+        let mut map = identity_map();
+        map.swap(p, q);
+        let inv = inverse(&map);
+        let text = config(&render_table(&table, &mut rng), Some(roa), &map);
+        let mut h = vec![];
+        for o in &table {
+            h.extend(targeted_loop_history(&mut rng, o, &inv, &cs));
+        }
+        let mut pool = table_pool(&table);
+        pool.insert(4);
+        let pool_codes: Vec<u16> = pool.iter().map(|i| cs[inv[*i]]).collect();
+        h.extend(hist::consistent(&mut rng, &pool_codes, 10, &GAPS, true));
+        push_final_drain(&mut h);
+        return PipeCase { table, map, roa, text, h, family: "systematic", map_kind: if p == q { 0 } else { 4 }, pool_len: pool.len() };
+    }
+    let mut rng = Rng::for_case(ctx.seed, "C13", "loop", r);
+    let table = random_table(&mut rng);
+    let roa = r % 2 == 0;
+    let map_kind = (r / 2) % 4;
+    let map = random_map(&mut rng, map_kind);
+    let inv = inverse(&map);
+    let text = config(&render_table(&table, &mut rng), Some(roa), &map);
+    let mut pool = table_pool(&table);
+    pool.insert(4);
+    pool.insert(5 + rng.usize(8));
+    let pool_codes: Vec<u16> = pool.iter().map(|i| cs[inv[*i]]).collect();
+    let n_ev = 8 + rng.usize(ctx.tier.sel(24, 40));
+    let targeted = (r / 8) % 2 == 1;
+    let mut h = vec![];
+    if targeted {
+        for _ in 0..1 + rng.usize(2) {
+            let o = rng.pick(&table).clone();
+            h.extend(targeted_loop_history(&mut rng, &o, &inv, &cs));
+        }
+    }
+    h.extend(hist::consistent(&mut rng, &pool_codes, n_ev, &GAPS, true));
+    push_final_drain(&mut h);
+    PipeCase { table, map, roa, text, h, family: if targeted { "targeted+random" } else { "random" }, map_kind, pool_len: pool.len() }
+}
+
+fn run_loop(out: &mut CaseOut, ctx: &Ctx, r: u64) {
+    let PipeCase { table, map, roa, text, h, family, map_kind, pool_len } = loop_case(ctx, r);
+    out.tag(format!("loop:{family}:roa={roa}:map={map_kind}:entries={}:pool={pool_len}", table.len()));
+    out.inc(&format!("loop_histories_{}", family.replace('+', "_")));
+    let Some(obs) = judge_history(out, &table, &map, roa, &text, &h, r % 400 == 1, true) else { return };
+    // the same press/release events ticked through 4 ticks apart: at every moment kanata blocks the OS must
+    // hold what it holds there after the same events
+    if let Some(reference) = reference_run(&text, &h) {
+        compare_spacing(out, &text, &h, roa, &obs, &reference);
+    }
+}
+
 impl Check for C13Check {
     fn id(&self) -> &'static str {
         "C13"
     }
     fn n_cases(&self, ctx: &Ctx) -> u64 {
-        n_pure(ctx) + n_pipe(ctx) + n_fu(ctx)
+        n_pure(ctx) + n_pipe(ctx) + n_fu(ctx) + n_loop(ctx)
     }
     fn describe(&self, ctx: &Ctx, idx: u64) -> Value {
         if idx < n_pure(ctx) {
@@ -1309,11 +1582,15 @@ impl Check for C13Check {
         } else if idx < n_pure(ctx) + n_pipe(ctx) {
             let pc = pipe_case(ctx, idx - n_pure(ctx));
             json!({"part": "pipeline", "case": idx - n_pure(ctx), "family": pc.family, "config": pc.text, "history": render_hist(&pc.h)})
-        } else {
+        } else if idx < n_pure(ctx) + n_pipe(ctx) + n_fu(ctx) {
             let r = idx - n_pure(ctx) - n_pipe(ctx);
             let c = fu_case(ctx, r);
             let minis = fu_minis(&c);
             json!({"part": "followup", "case": r, "family": c.family, "config": c.text, "mini_histories": minis.len(), "first_mini_histories": minis.iter().take(8).map(|m| render_hist(&m.h)).collect::<Vec<_>>()})
+        } else {
+            let r = idx - n_pure(ctx) - n_pipe(ctx) - n_fu(ctx);
+            let pc = loop_case(ctx, r);
+            json!({"part": "loop", "case": r, "family": pc.family, "config": pc.text, "history": render_hist(&pc.h), "driver": "t:N = a pause of N ms; after an input event one tick runs, further ticks only while can_block_update_idle_waiting is false"})
         }
     }
     fn run_case(&self, ctx: &Ctx, idx: u64) -> CaseOut {
@@ -1322,13 +1599,15 @@ impl Check for C13Check {
             run_pure(&mut out, ctx, idx);
         } else if idx < n_pure(ctx) + n_pipe(ctx) {
             run_pipeline(&mut out, ctx, idx - n_pure(ctx));
-        } else {
+        } else if idx < n_pure(ctx) + n_pipe(ctx) + n_fu(ctx) {
             run_followup(&mut out, ctx, idx - n_pure(ctx) - n_pipe(ctx));
+        } else {
+            run_loop(&mut out, ctx, idx - n_pure(ctx) - n_pipe(ctx) - n_fu(ctx));
         }
         out
     }
     fn rule(&self) -> String {
-        "Pure part: one override table per case, written as configuration text and parsed by the real parser (256 seed-independent tables: every subset of the 8 modifiers as the input modifiers of an override of `a`, with a shorter combination listed before and after it; then random tables of 1-7 entries over non-modifiers {a,b,1,9} with random modifier subsets on both sides, half of them extending/shrinking another entry's combination). For each table, exhaustively every ordered list of distinct keys of length <= 3 (quick) / <= 4 (thorough) over {a,b,1,9,x} + the 8 modifiers, plus targeted lists (each entry's full combination in several orders, with an unrelated key, an extra modifier, a second non-modifier), is passed to Overrides::override_keys and the resulting key set compared with the set-based specification. Pipeline part: override-release-on-activation alternating yes/no; the base layer maps the 13 physical keys to a permutation of the same 13 key codes (identity / non-modifiers permuted / non-modifiers and modifiers each permuted / 1-3 arbitrary transpositions, a quarter of the random cases each) and the overrides are defined on the output codes; 80 seed-independent cases enumerate every pair (output key a,b,1,9 that has an override) x (physical key a,b,1,9,x that outputs it, the layer swaps the two; a second entry overrides the physical key's own code) x 4 combination shapes, each typing the full combination modifiers-first, sending OS repeats of the non-modifier's physical key while it is held, and releasing everything; the other cases use random tables with physically consistent random press/release/repeat histories over the physical keys that output the keys of the table, half of them preceded by one or two such targeted combinations; after every tick the set of keys the OS holds must equal the specification applied to the keys kanata holds in that tick (Layout::keycodes, plus the key just removed by release-on-activation), kanata's held keys must be consistent with the physical keys, and at the end nothing may be held; the histories also contain OS auto-repeat events for held keys: every repeat output must be for a key that is down at the OS, a repeat of the physical key whose output is the non-modifier of an active override must be forwarded for one of the override's output keys, never for the replaced key, and a repeat of a physical key whose output kanata holds and no active override replaces must be forwarded as that key (or as a down output of another entry for the same key), never dropped and never as an unrelated key; repeat violations on a physical key that outputs a different code get the suffix :remapped-key. End of the combination (release-on-activation off): after a tick in which override_keys replaced a non-modifier, the next press or release kanata processes (any key, any distance, also the tick directly after the activating tick) must leave that non-modifier no longer held by kanata - together with the per-tick clause this means the override outputs are released, still-held modifiers are back and the newly pressed key is sent with the modifiers that are really held; a tick that consumes no event must change neither kanata's held keys nor the OS set. Spacing independence: every pipeline history is re-run with the same press/release events 4 ticks apart (repeats dropped); at every settled point (a tick that consumed nothing while nothing was queued) the OS must hold the same keys as the widely spaced run after the same number of events, and with release-on-activation off the complete sequence of presses/releases sent to the OS must be identical. Follow-up part: 160 seed-independent cases ((output key a,b,1,9) x (physical key that outputs it) x 4 combination shapes incl. one whose output modifier differs from the held one x release-on-activation no/yes) + 400 (quick) / 4000 (thorough) random tables with random layer permutations; per case EXHAUSTIVELY every table entry x every follow-up event (press of each universe key outside the entry's combination, release of each key of the combination; 13 per entry) x 4 spacings (follow-up event 0, 1, 2 ticks behind the key that completes the combination with the modifiers 2 ticks apart; whole mini-history without any tick); 3 ticks later everything is released with 0/1/2-tick gaps; every mini-history is judged by all pipeline clauses and compared with its widely spaced run. Non-trivial = table accepted; distinct = distinct table shape (modifier counts per entry) / pipeline class.".into()
+        "Pure part: one override table per case, written as configuration text and parsed by the real parser (256 seed-independent tables: every subset of the 8 modifiers as the input modifiers of an override of `a`, with a shorter combination listed before and after it; then random tables of 1-7 entries over non-modifiers {a,b,1,9} with random modifier subsets on both sides, half of them extending/shrinking another entry's combination). For each table, exhaustively every ordered list of distinct keys of length <= 3 (quick) / <= 4 (thorough) over {a,b,1,9,x} + the 8 modifiers, plus targeted lists (each entry's full combination in several orders, with an unrelated key, an extra modifier, a second non-modifier), is passed to Overrides::override_keys and the resulting key set compared with the set-based specification. Pipeline part: override-release-on-activation alternating yes/no; the base layer maps the 13 physical keys to a permutation of the same 13 key codes (identity / non-modifiers permuted / non-modifiers and modifiers each permuted / 1-3 arbitrary transpositions, a quarter of the random cases each) and the overrides are defined on the output codes; 80 seed-independent cases enumerate every pair (output key a,b,1,9 that has an override) x (physical key a,b,1,9,x that outputs it, the layer swaps the two; a second entry overrides the physical key's own code) x 4 combination shapes, each typing the full combination modifiers-first, sending OS repeats of the non-modifier's physical key while it is held, and releasing everything; the other cases use random tables with physically consistent random press/release/repeat histories over the physical keys that output the keys of the table, half of them preceded by one or two such targeted combinations; after every tick the set of keys the OS holds must equal the specification applied to the keys kanata holds in that tick (Layout::keycodes, plus the key just removed by release-on-activation), kanata's held keys must be consistent with the physical keys, and at the end nothing may be held; the histories also contain OS auto-repeat events for held keys: every repeat output must be for a key that is down at the OS, a repeat of the physical key whose output is the non-modifier of an active override must be forwarded for one of the override's output keys, never for the replaced key, and a repeat of a physical key whose output kanata holds and no active override replaces must be forwarded as that key (or as a down output of another entry for the same key), never dropped and never as an unrelated key; repeat violations on a physical key that outputs a different code get the suffix :remapped-key. End of the combination (release-on-activation off): after a tick in which override_keys replaced a non-modifier, the next press or release kanata processes (any key, any distance, also the tick directly after the activating tick) must leave that non-modifier no longer held by kanata - together with the per-tick clause this means the override outputs are released, still-held modifiers are back and the newly pressed key is sent with the modifiers that are really held; a tick that consumes no event must change neither kanata's held keys nor the OS set. Spacing independence: every pipeline history is re-run with the same press/release events 4 ticks apart (repeats dropped); at every settled point (a tick that consumed nothing while nothing was queued) the OS must hold the same keys as the widely spaced run after the same number of events, and with release-on-activation off the complete sequence of presses/releases sent to the OS must be identical. Follow-up part: 160 seed-independent cases ((output key a,b,1,9) x (physical key that outputs it) x 4 combination shapes incl. one whose output modifier differs from the held one x release-on-activation no/yes) + 400 (quick) / 4000 (thorough) random tables with random layer permutations; per case EXHAUSTIVELY every table entry x every follow-up event (press of each universe key outside the entry's combination, release of each key of the combination; 13 per entry) x 4 spacings (follow-up event 0, 1, 2 ticks behind the key that completes the combination with the modifiers 2 ticks apart; whole mini-history without any tick); 3 ticks later everything is released with 0/1/2-tick gaps; every mini-history is judged by all pipeline clauses and compared with its widely spaced run; a 5th spacing runs the mini-history in loop mode with pauses of 60..260 ms between all events. Loop part (processing-loop driver): 200 seed-independent cases ((output key a,b,1,9) x (physical key that outputs it) x 5 combination shapes: (q)->(out), (lsft q)->(lsft out), (lsft q)->(lctl out), (ralt q)->(out), (lsft rctl q)->(lalt out), i.e. 0, 1 and 2 input modifiers, x override-release-on-activation no/yes) + 8000 (quick) / 60000 (thorough) random tables (same table generator, layer permutations and release-on-activation alternation as the pipeline part), histories = [for the seed-independent and half of the random cases: one or two entries' full combination typed modifiers-first, held 50..500 ms, in half of them 1-3 OS repeats 25..40 ms apart, released in random order] + a physically consistent random press/release/repeat history; pauses between events 50..500 ms (one in six 1..20 ms). Driver: an input event is handled and one tick runs; after that a tick runs only while Kanata::can_block_update_idle_waiting(1) is false; when it is true the rest of the pause passes without any tick. Every executed tick is judged by all pipeline clauses; at every moment kanata blocks: the set of keys the OS holds must equal the specification applied to the keys kanata holds at that moment (Layout::keycodes; an override output key may be down only while its combination is held), with override-release-on-activation yes no override may be active, no accepted key event may be unprocessed; the blocked moments are the settled points compared with the unconditionally ticking widely spaced run. Non-trivial = table accepted; distinct = distinct table shape (modifier counts per entry) / pipeline class.".into()
     }
     fn assumptions(&self) -> Vec<String> {
         vec![
@@ -1341,6 +1620,7 @@ impl Check for C13Check {
             "repeats are judged for completeness only from a settled state: no queued event, the previous tick's OS set equal to the specification (so ticks showing the known order deviation are excluded), no key removed by release-on-activation in that tick. kanata's repeat table lists a key's own code and the non-modifier outputs of every override of that code and takes the first that is down, so a repeat forwarded as a down output of another entry for the same key is tolerated (counted as pipeline_repeats_forwarded_as_other_entry_output)".into(),
             "end of the combination: neither the statement nor the guide says when kanata stops holding an overridden key that is still physically down. Judged is what the repository's own scripted scenarios (override_release_mod_change_key: `d:lsft d:a d:c` gives `up:Kb9 dn:C`, `d:lsft d:1 d:c` gives `up:LCtrl up:Kb2 dn:LShift dn:C`, release of the modifier gives `up:LShift up:Kb9`) and the doc comment of mark_overridden_nonmodkeys_for_eager_erasure fix: the next press or release processed after a tick in which the override was active ends it. Which non-modifiers were replaced in a tick is read from the public function (OverrideStates::removed_oscs after override_keys on the keys kanata holds, in state order), and only in ticks whose OS set equals the specification, so overrides left unapplied by the known order deviation mark nothing. Only judged with override-release-on-activation no (with yes the key is dropped in the activating tick, which the per-tick clause already covers). The guide's sentence that releasing the modifier first 'sends a' describes older behaviour and is not judged either way beyond OS set = specification of the keys kanata holds".into(),
             "spacing independence assumes a configuration of plain keys and overrides only (nothing time-dependent), which is all this check generates; kanata consumes one queued event per tick, so the same events in the same order must lead through the same states. With override-release-on-activation yes the output is released one tick after activation and can share a tick with the next event, which legitimately merges/reorders outputs (a modifier that would come back for one tick never does), so there only the held sets at settled points are compared, not the output sequence. OS repeat inputs are left out of the widely spaced run and repeat outputs out of the compared sequence".into(),
+            "loop mode reproduces the control flow of Kanata::start_processing_loop in whole milliseconds: the tick after an input event always runs (the loop handles the event that woke it and accounts for the elapsed millisecond without consulting the predicate), afterwards can_block_update_idle_waiting(1) is consulted before every tick exactly as the loop does. All loop-mode gaps are >= 1 ms, so every event is followed by a tick before the next one is handled; an OS repeat handled in the SAME millisecond as the press that activated an override (no tick in between) is the open finding C07 override-release-marker-cleared-by-os-repeat and is left to C07. A block whose OS set shows the known order deviation (same re-ordering test as for ticks) is counted, not reported again. That the override output is released before kanata blocks under override-release-on-activation yes is taken from the guide ('the 9 key cannot remain held when activated by the override') and the statement ('no override output key stays pressed'); 'active' is read from the public function (removed_oscs after override_keys on the keys kanata holds)".into(),
             "known deviation (DESIGN §6 #9): the implementation is order-sensitive; a deviation is classified as that class exactly when a non-modifier precedes a modifier in the list and the same keys listed modifiers-first give a specified result".into(),
         ]
     }
@@ -1395,6 +1675,28 @@ impl Check for C13Check {
             ("followup_press_of_outside_modifier", 10_000),
             ("followup_release_of_combination_modifier", 5_000),
             ("followup_release_of_overridden_key", 3_000),
+            ("followup_whole_history_in_loop_mode", 10_000),
+            ("loop_histories_systematic", N_LOOP_SYS),
+            ("loop_histories_random", 3_000),
+            ("loop_histories_targeted_random", 3_000),
+            ("loop_histories_release_on_activation_yes", 10_000),
+            ("loop_histories_release_on_activation_no", 10_000),
+            ("loop_blocks_judged", 200_000),
+            ("loop_blocks_followed_by_a_pause_of_50ms_or_more", 150_000),
+            ("loop_ticks_run_because_kanata_may_not_block", 10_000),
+            ("loop_blocks_after_release_on_activation_output_released", 10_000),
+            ("loop_blocks_with_override_active_combination_held", 10_000),
+            ("loop_blocks_with_override_active_input_mods_0", 2_000),
+            ("loop_blocks_with_override_active_input_mods_1", 2_000),
+            ("loop_blocks_with_override_active_input_mods_2", 2_000),
+            ("loop_activations_release_on_activation_yes_input_mods_0", 2_000),
+            ("loop_activations_release_on_activation_yes_input_mods_1", 2_000),
+            ("loop_activations_release_on_activation_yes_input_mods_2", 2_000),
+            ("loop_activations_release_on_activation_no_input_mods_0", 2_000),
+            ("loop_activations_release_on_activation_no_input_mods_1", 2_000),
+            ("loop_activations_release_on_activation_no_input_mods_2", 2_000),
+            ("loop_repeat_inputs", 10_000),
+            ("loop_blocks_with_nothing_held", 20_000),
         ]
     }
     fn exhaustive(&self, _ctx: &Ctx) -> bool {
